@@ -36,7 +36,41 @@
 (***************************************************************************)
 EXTENDS VarSem, Json
 
-CONSTANTS MaxLen, Pool, Starts, Xs, Ys, Extra, Nested, CopyVarContext
+CONSTANTS MaxLen, Pool, Starts, Xs, Ys, Extra, Nested, CopyVarContext, PathKeys
+
+(***************************************************************************)
+(* THE ALPHABET OF KEYS.  A type is an ATOMIC key of context.variable (so  *)
+(* is the name of an attribute); the specification never looks inside the  *)
+(* string.  The strings that are used as types / attribute names / names   *)
+(* are therefore a dimension of their own: KeyKind classifies the ones of  *)
+(* the pools below (the harness recomputes the class from the characters   *)
+(* of the string and refuses a table that disagrees):                      *)
+(*   dotted     contains a dot (the context helpers of lena read a string  *)
+(*              key as a dot-separated PATH - Variable must not)           *)
+(*   spaces     contains a space        char   a single character          *)
+(*   machinery  equals a key lena itself writes somewhere (dim, combine,   *)
+(*              variable, range, latex_name, name, compose, type)          *)
+(*   plain      anything else (also keys that are prefixes of one another) *)
+(* ReservedKeys: as a type these make the statement contradict itself      *)
+(* (context.variable.name is the name of the variable AND the attributes   *)
+(* of the variable of type "name"); chains with such a type, or with a     *)
+(* type that is an attribute name of a chain member, are outside the       *)
+(* quantifier (Variables_reserved.cfg: TLC refutes TypedDeclarative).      *)
+(* PathKeys = TRUE is the defect model "descriptions of earlier types are  *)
+(* carried over with the path-reading helper": a dotted type is no longer  *)
+(* found under its key (Variables_pathkeys.cfg: TLC refutes                *)
+(* TypesAvailable).                                                        *)
+(***************************************************************************)
+KeyKind == "detector.near" :> "dotted" @@ "detector.near.x" :> "dotted" @@ "range.min" :> "dotted"
+           @@ "energy.kinetic" :> "dotted" @@ "unit.si" :> "dotted" @@ "pair.of" :> "dotted"
+           @@ "title.en" :> "dotted" @@ "note.x" :> "dotted" @@ "dim.x" :> "dotted"
+           @@ "far side" :> "spaces" @@ "two words" :> "spaces"
+           @@ "x" :> "char" @@ "u" :> "char" @@ "1" :> "char"
+           @@ "dim" :> "machinery" @@ "combine" :> "machinery" @@ "variable" :> "machinery"
+           @@ "range" :> "machinery" @@ "latex_name" :> "machinery"
+           @@ "name" :> "machinery" @@ "compose" :> "machinery" @@ "type" :> "machinery"
+KindOf(key) == IF key \in DOMAIN KeyKind THEN KeyKind[key] ELSE "plain"
+ReservedKeys == {"name", "type", "compose"}
 
 VARIABLES chain, start, k, sv, cv, bv, rv, vars, al, done
 vars_ == <<chain, start, k, sv, cv, bv, rv, vars, al, done>>
@@ -89,12 +123,21 @@ Init == /\ chain \in Chains
 Composed(cvar, vc) ==
   IF cvar.m # <<>> /\ Has(cvar, "type") THEN UpdateVar(cvar, vc).m["compose"].l ELSE <<>>
 
+\* the defect model PathKeys: what was carried over from the previous context.variable under a
+\* dotted key went to a nested path instead and is not there under the key
+Carry(ctx, vc) ==
+  IF PathKeys /\ Has(ctx, "variable") /\ IsD(ctx.m["variable"])
+  THEN LET var == ctx.m["variable"]
+           lost == {t \in DOMAIN var.m : KindOf(t) = "dotted" /\ t \notin DOMAIN vc.m}
+       IN With(ctx, "variable", D([x \in DOMAIN var.m \ lost |-> var.m[x]]))
+  ELSE ctx
+
 ApplyVar ==
   /\ k < Len(chain)
   /\ LET e == chain[k + 1]
          cvar == IF Has(sv.c, "variable") THEN sv.c.m["variable"] ELSE EmptyD
          comp == Composed(cvar, vars[k + 1])
-     IN /\ sv' = [d |-> CallData(e, sv.d), c |-> UpdateCtx(sv.c, vars[k + 1])]
+     IN /\ sv' = [d |-> CallData(e, sv.d), c |-> Carry(UpdateCtx(sv.c, vars[k + 1]), vars[k + 1])]
         /\ vars' = IF al # 0 /\ comp # <<>> THEN [vars EXCEPT ![al] = With(@, "compose", L(comp))] ELSE vars
         /\ al' = IF CopyVarContext THEN 0 ELSE k + 1
   /\ k' = k + 1
@@ -151,6 +194,20 @@ TypedDeclarative ==
      /\ "compose" \in done => cv.c.m["variable"] = Described(start.c, chain)
      \* every prefix of the sequence as well
      /\ k > 0 => sv.c.m["variable"] = Described(start.c, SubSeq(chain, 1, k))
+\* THE STATEMENT, read directly: the attributes of every composed variable are available under its
+\* type (whatever string the type is), after every step of the sequence and after Compose
+RECURSIVE KeysOf(_)
+KeysOf(e) == (IF e.v.type = "" THEN {} ELSE {e.v.type}) \cup DOMAIN e.v.attrs
+             \cup UNION {KeysOf(e.ch[j]) : j \in 1..Len(e.ch)}
+AttrKeys(ch) == UNION {DOMAIN ch[j].v.attrs : j \in 1..Len(ch)}
+ReservedIn(ch) == \E j \in 1..Len(ch) : ch[j].v.type \in ReservedKeys \cup AttrKeys(ch)
+AvailableIn(var, ch, n) ==
+  \A j \in 1..n : Has(var, ch[j].v.type) /\ var.m[ch[j].v.type] = Attrs(ch[j].v)
+TypesAvailable ==
+  (AllTyped(chain) /\ DistinctTypes(chain) /\ ~ReservedIn(chain)) =>
+     /\ k > 0 => AvailableIn(sv.c.m["variable"], chain, k)
+     /\ "compose" \in done => AvailableIn(cv.c.m["variable"], chain, Len(chain))
+     /\ "repeat" \in done => AvailableIn(rv.c.m["variable"], chain, Len(chain))
 \* flattening: a nested Compose contributes its types in application order
 RECURSIVE Flat(_)
 Flat(ch) == IF ch = <<>> THEN <<>>
@@ -221,6 +278,29 @@ ExtraK6 == {Cmb(<<Var(a), Var(b)>>) : a \in NameIn({"fst"}), b \in NameIn({"nf",
 DataK6 == {DN, Hit(DI(2))}
 NoElems == {}
 NoData == {}
+\* THE ALPHABET POOL: types, names and attribute names that are dotted, prefixes of one another
+\* (detector / detector.near / detector.near.x; latex / latex_name), one character, with spaces, equal
+\* to keys the machinery writes; no type is an attribute name or reserved
+PoolA == {V("det.near", "detector.near", "unit" :> S(<<"cm">>) @@ "range.min" :> I("0"), "inc"),
+          V("name", "detector", "unit.si" :> S(<<"m">>), "dbl"),
+          V("compose", "detector.near.x", "note.x" :> L(<<"a", "b">>), "tri"),
+          V("x", "x", "two words" :> S(<<"w">>) @@ "u" :> EmptyD, "sq"),
+          V("two words", "far side", "variable" :> D("type" :> S(<<"detector">>)), "add5"),
+          V("type", "range", "latex" :> S(<<"r">>), "inc"),
+          V("d.e", "dim", <<>>, "dbl"),
+          V("a", "latex_name", "1" :> S(<<"one">>), "tri"),
+          V("c", "combine", "dim.x" :> I("0"), "sq")}
+ByName(P, n) == CHOOSE v \in P : v.name = <<n>>
+PoolA7 == {v \in PoolA : v.type \notin {"range", "combine"}}
+KwPairA == [name |-> <<"K.k">>, type |-> "pair.of", attrs |-> ("title.en" :> S(<<"T">>)), g |-> ""]
+KwAttrA == [name |-> <<>>, type |-> "", attrs |-> ("note.x" :> S(<<"T">>)), g |-> ""]
+ExtraA == {Cmp(<<Var(ByName(PoolA, "det.near")), Var(ByName(PoolA, "compose"))>>),
+           Cmp(<<Var(ByName(PoolA, "name")), Var(ByName(PoolA, "d.e"))>>),
+           CmbKw(<<Var(ByName(PoolA, "x")), Var(ByName(PoolA, "two words"))>>, KwPairA),
+           CmpKw(<<Var(ByName(PoolA, "a")), Var(ByName(PoolA, "det.near"))>>, KwAttrA)}
+\* a type that is a reserved key (the statement contradicts itself: Variables_reserved.cfg)
+PoolReserved == {V("n", "name", <<>>, "inc"), V("y", "coordinate", <<>>, "dbl")}
+OldDotted == V("E.kin", "energy.kinetic", "unit.si" :> S(<<"J">>), "inc")
 DataK == {DN, Hit(DI(2)), DT(<<DI(2), DI(3)>>)}
 OldTyped == V("E", "energy", "unit" :> S(<<"MeV">>), "inc")
 OldTyped2 == V("t", "time", <<>>, "inc")
@@ -250,6 +330,8 @@ StartsK == { EmptyD, D("data" :> D("run" :> S(<<"r1">>))),
              D("variable" :> UpdateVar(VarContext(OldTyped2), VarContext(OldTyped))) }
 StartsK6 == { EmptyD, D("variable" :> VarContext(OldTyped)),
               D("variable" :> UpdateVar(VarContext(OldTyped2), VarContext(OldTyped)) @@ "data" :> D("run" :> S(<<"r1">>))) }
+StartsA == { EmptyD, D("variable" :> VarContext(OldDotted)),
+            D("variable" :> UpdateVar(VarContext(OldTyped2), VarContext(OldDotted)) @@ "data" :> D("run" :> S(<<"r1">>))) }
 StartsB == { EmptyD, D("data" :> D("run" :> S(<<"r1">>))), D("variable" :> EmptyD),
              D("variable" :> VarContext(OldTyped)),
              D("variable" :> UpdateVar(VarContext(OldTyped2), VarContext(OldTyped))),
@@ -261,5 +343,7 @@ Emitted == Done => PrintT(ToJson([chain |-> chain, start |-> start, seq |-> sv, 
                                   combok |-> CombOk,
                                   barable |-> start.c = EmptyD /\ ~LooksLikeValue(start.d),
                                   typed |-> AllTyped(chain) /\ DistinctTypes(chain),
-                                  lastvc |-> LastVC(chain)]))
+                                  lastvc |-> LastVC(chain),
+                                  keykinds |-> LET ks == UNION {KeysOf(chain[j]) : j \in 1..Len(chain)}
+                                               IN [x \in ks |-> KindOf(x)]]))
 =============================================================================
